@@ -169,7 +169,7 @@ def check_property(pid, a, seed, timeout_ms, t0):
                     continue
                 scheduled.add(fq)
                 c = eng.contracts[fq]
-                if c.get("inline") or c.get("assumed") or c.get("bounded_only"):
+                if c.get("inline") or c.get("assumed") or c.get("bounded_only") or c.get("trace"):
                     continue
                 if c.get("split"):
                     for i in range(len(c["split"])):
